@@ -22,7 +22,7 @@ def api_binary(san, buf_units, hbuf_units):
     return wbuild.build(name, san, srcs, defines=defs, events=True, log=log)
 
 
-def run_api(chk, prop, variants, san="asan", nshards=16, extra_args=None, stall_s=12.0):
+def run_api(chk, prop, variants, san="asan", nshards=16, extra_args=None, stall_s=12.0, crash_is_violation=True):
     """variants: list of (buf_units, hbuf_units).  Returns (counters, distinct, samples)."""
     tot_c, tot_d, samples = {}, {}, []
     for (bu, hu) in variants:
@@ -39,6 +39,12 @@ def run_api(chk, prop, variants, san="asan", nshards=16, extra_args=None, stall_
         for c in sr.crashes:
             if c.get("kind") == "harness" or "harness-bug@" in str(c.get("key")):
                 raise HarnessFailure("harness failure in %s: %s" % (prop, (c.get("stderr") or "")[-2000:]))
+            if not crash_is_violation:
+                # a crash / hang is outside this property's statement (it belongs to C11 / C04): the case is
+                # not decided here, and is reported as such
+                chk.inconclusive.append(dict(variant=vtag, case=c.get("idx"), desc=_j(c.get("desc")),
+                                             how="%s (%s) while running the case: belongs to C11/C04, not decided by this property" % (c["kind"], c["key"])))
+                continue
             chk.add_violation("%s|%s|%s" % (prop, c["kind"], c["key"]),
                               "%s while running a case (%s)" % (c["kind"], c["key"]), variant=vtag, case=c.get("idx"),
                               case_desc=_j(c.get("desc")), stderr=c.get("alone_stderr") or c.get("batch_stderr"),
